@@ -164,8 +164,8 @@ class SystemOfShapes:
         J = sympy.zeros(N, N)
         for i, sym in enumerate(self.x_):
             expr = self.c_[i]
-            for v in self.A_[i, :]:
-                expr += v
+            for v, sym_v in zip(self.A_[i, :], self.x_):
+                expr += v * sym_v
             for j, sym2 in enumerate(self.x_):
                 J[i, j] = sympy.diff(expr, sym2)
         return J
